@@ -27,6 +27,11 @@ class SimInterrupt(BaseException):
     """Ctrl-C / uncaught exception delivered to a task: normal unwinding."""
 
 
+class SimSoftInterrupt(KeyboardInterrupt):
+    """Ctrl-C delivered to ONE call (notebook / REPL / guarded loop): the call unwinds, the caller
+    catches it and the same interpreter - with the same lock objects - keeps running."""
+
+
 class RemoteTaskError(Exception):
     """The code under test raised inside a forked worker process; `info` = (type, message, traceback)."""
 
@@ -115,6 +120,8 @@ class Task:
         self.ctx: dict = {}
         self.steps = 0
         self.stalled_until = 0
+        self.soft = None  # armed single-call fault: [remaining eligible points, kinds, "kbdint"|"emfile"]
+        self.soft_fire = None
 
 
 class Scheduler:
@@ -324,6 +331,12 @@ class Scheduler:
                 if g.alive and not g.interrupting:
                     self.faults_fired.append((what, g.name, self.step, kind))
                     (self._kill if what == "kill" else self._interrupt)(gid)
+        if cur.soft is not None and kind in cur.soft[1]:
+            cur.soft[0] -= 1
+            if cur.soft[0] <= 0:
+                # the operation announced here fails / is interrupted for this one call only
+                cur.soft_fire = (cur.soft[2], kind, self.step)
+                cur.soft = None
         nxt = self._pick(cur)
         if cur.state == "dead":
             self._handoff(None, nxt)
@@ -337,6 +350,15 @@ class Scheduler:
         if cur.pending_interrupt and not cur.interrupted:
             cur.interrupted = True
             raise SimInterrupt()
+        sf = cur.soft_fire
+        if sf is not None:
+            cur.soft_fire = None
+            self.count("soft_" + sf[0])
+            self.faults_fired.append(("soft_" + sf[0], cur.group.name, sf[2], sf[1]))
+            self.log.append((sf[2], cur.name, "soft." + sf[0], sf[1]))
+            if sf[0] == "kbdint":
+                raise SimSoftInterrupt("injected: interrupt of this one call")
+            raise OSError(24, "Too many open files (injected for this one call)")
 
     def block(self, reason):
         """Park the running task until somebody makes it runnable again."""
